@@ -44,6 +44,7 @@ def main():
     first.update({r["name"]: r for r in table(f"{V}/seeded/RESULTS-round9-before-strengthening.tsv")})
     first.update({r["name"]: r for r in table(f"{V}/seeded/RESULTS-round10-before-strengthening.tsv")})
     first.update({r["name"]: r for r in table(f"{V}/seeded/RESULTS-round11-before-strengthening.tsv")})
+    first.update({r["name"]: r for r in table(f"{V}/seeded/RESULTS-round12-before-strengthening.tsv")})
     out.append("### B.1 Seeded changes written by independent sub-agents (`seeded/<id>/`)")
     out.append("")
     out.append("Each sub-agent got only the text of one property and its own scratch worktree of `/repo` (nothing from")
@@ -59,7 +60,11 @@ def main():
     out.append("of B.2 and B.3, were measured once more in one go with the checks as committed at `0e96565`; the four rows of")
     out.append("round 11 (C16 only) one commit later, `8fb0bb7`, which added only the lane r11c16b-1 needs - that lane was corrected once more afterwards")
     out.append("(DESIGN.md 7, *a false alarm of my own making*), and every row whose detection depends on C16, all of B.3 and")
-    out.append("the silent C16 rows of B.2 were measured again for C16 against the corrected check: same outcomes);")
+    out.append("the silent C16 rows of B.2 were measured again for C16 against the corrected check: same outcomes;")
+    out.append("round 12, ids `r12...`, nine changes: met by the checks at `5daa08a`, all nine reported, but r12c12-3 and r12c16-1 only by C14")
+    out.append("and not by the check of the property they were written against - C12 then got titlecase letters in its respelling and C16 an")
+    out.append("in-place edit of a qualifier value in its builder documents, commit `1d534f6`; the nine rows, all of B.3 and the silent rows of B.2")
+    out.append("were measured again for C12 and C16 against that commit, in scratch copies of `/repo` and `/verif`, C14 being unchanged);")
     out.append("*now* = the checks as they stand. Round 2 and 3 sub-agents were also told which ideas the earlier rounds")
     rows = table(f"{V}/seeded/RESULTS.tsv")
     n_missed = sum(1 for r in rows if r["name"] in first and "caught" not in first[r["name"]]["verdict"] and r["name"] != "r10c14-1")
